@@ -516,7 +516,10 @@ def alpha_check(run, ctx, p, d, rng):
         ctx.case()
         ctx.count("alpha")
         if base[0] == "ok":
-            if "<Macro" in base[1] or any("<Macro" in v for _, v in base[2]):
+            # a printed macro object carries its NAME (<Macro 'k'>, also lower- / upper-cased by a filter block): the
+            # renamed program legitimately prints the new name, so such programs are not compared textually
+            if "<macro" in base[1].lower() or any("<macro" in v.lower() for _, v in base[2]):
+                ctx.count("alpha_skipped_prints_macro_name")
                 continue
             want = ("ok", base[1], tuple(sorted((m.get(k, k), v) for k, v in base[2] if not m.get(k, k).startswith("_"))))
             if got[0] == "ok":
